@@ -21,6 +21,11 @@ TRUST = ["Spec/ApiSpec.v is the hand-written reference model (a map from ARN to 
 WAIT = {"StartAt": "W", "States": {"W": {"Type": "Wait", "Seconds": 100000, "End": True}}}
 PASS = {"StartAt": "P", "States": {"P": {"Type": "Pass", "End": True}}}
 ROLE1 = "arn:aws:iam::0123456789:role/service-role/MyRole"
+# loggingConfiguration values (valid and invalid)
+LOGS = [{"destinations": [{}], "level": "ALL"}, {}, {"level": "ALL"}, {"level": "BOGUS"}, {"level": "OFF"}, "str",
+        {"destinations": [{}, {}], "level": "ERROR"}, {"destinations": [{}]}, {"level": 5},
+        {"destinations": [], "level": "ALL"}, {"destinations": [], "level": "FATAL"}, {"destinations": [], "level": "OFF"}, {"destinations": "x", "level": "ERROR"},
+        {"destinations": {"a": 1}, "level": "ALL"}, {"destinations": [{"cloudWatchLogsLogGroup": {"logGroupArn": "arn:x"}}], "includeExecutionData": True, "level": "FATAL"}]        # (keys in alphabetical order: the stores are compared as sorted JSON)
 ROLE2 = "arn:aws:iam::42:role/x"
 
 
@@ -52,8 +57,7 @@ def gen_call(rng, known_sm, known_ex):
     roles = [ROLE1, ROLE1, ROLE2, "arn:aws:iam::abc:role/x", "arn:aws:iam::1:role/", "", 7, ABSENT]
     defs = [json.dumps(WAIT), json.dumps(PASS), json.dumps(WAIT), "{}", "[1]", "not json", "", 5, ABSENT, '{"a": 1, "a": 2}']
     types = [ABSENT, "STANDARD", "EXPRESS", "FAST", 3]
-    logs = [ABSENT, {"destinations": [{}], "level": "ALL"}, {}, {"level": "ALL"}, {"level": "BOGUS"}, {"level": "OFF"}, "str",
-            {"destinations": [{}, {}], "level": "ERROR"}, {"destinations": [{}]}, {"level": 5}]
+    logs = [ABSENT] + LOGS
     sm_arns = (list(known_sm) * 3 if known_sm else [smarn("0123456789", "m1")] * 3) + [smarn("0123456789", "m1"), smarn("0123456789", "m12"), smarn("42", "m2"), smarn("0123456789", "nope"), "bad", "", ABSENT, 9,
                                     "arn:aws:states:local:0123456789:execution:m1:e1", "arn:aws:states:a:b:1:stateMachine:x"]
     ex_arns = (list(known_ex) * 3 if known_ex else ["arn:aws:states:local:0123456789:execution:m1:e1"] * 3) + ["arn:aws:states:local:0123456789:execution:m1:e1", "arn:aws:states:local:0123456789:execution:m1:zz", "bad", "", ABSENT, 3,
@@ -177,6 +181,12 @@ def run_sequence(rng, kind, length, tmpd):
             setup.append(("CreateStateMachine", json.dumps({"name": nm, "roleArn": ROLE2 if nm == "m2" else ROLE1, "definition": json.dumps(rng.choice([WAIT, PASS]))})))
         for _ in range(rng.randrange(1, 5)):
             setup.append(("StartExecution", json.dumps({"stateMachineArn": smarn(rng.choice(["0123456789", "0123456789", "42"]), rng.choice(["m1", "m12", "m2"])), "name": rng.choice(["e1", "e2", "e3"])})))
+    if rng.random() < 0.15:
+        # every loggingConfiguration of the pool on an otherwise valid CreateStateMachine and on an UpdateStateMachine of an existing machine
+        setup.append(("CreateStateMachine", json.dumps({"name": "lgbase", "roleArn": ROLE1, "definition": json.dumps(PASS)})))
+        for i, lc in enumerate(LOGS):
+            setup.append(("CreateStateMachine", json.dumps({"name": "lg%d" % i, "roleArn": ROLE1, "definition": json.dumps(PASS), "loggingConfiguration": lc})))
+            setup.append(("UpdateStateMachine", json.dumps({"stateMachineArn": smarn("0123456789", "lgbase"), "loggingConfiguration": lc})))
     for step_no in range(length + len(setup)):
         clock.t += 1
         action, body = setup[step_no] if step_no < len(setup) else gen_call(rng, known_sm, known_ex)
